@@ -38,6 +38,18 @@ def new_op(i):
     return {"op": "new", "i": i}
 
 
+def pristine_job(kind, n, inv, alt=0):
+    """An instance is also 'newly constructed' when it was deserialized from the checkpoint of a fresh (or just-reset) one: the formulas
+    hold for it like for any other. new(1); save; restore as 2; feed 2; reset 2; save; restore as 3; feed 3 (values from TLC as usual)."""
+    c = kcfg(kind, n, alt=alt)
+    cyc = [3, 1, 2, 2, 5, 1, 4, 4, 2, 6]
+    xs = [cyc[k % 10] for k in range(n + 4)]
+    ys = [cyc[(k + 3) % 10] for k in range(n + 3)]
+    ops = [new_op(1), {"op": "save", "i": 1, "s": 1}, {"op": "restore", "s": 1, "j": 2}] + to_ops(kind, 2, xs)
+    ops += [{"op": "reset", "i": 2}, {"op": "save", "i": 2, "s": 1}, {"op": "restore", "s": 1, "j": 3}] + to_ops(kind, 3, ys) + to_ops(kind, 2, ys)
+    return scripted("%s_pristine_n%d" % (kind, n), {1: c, 2: c, 3: c}, ops, slots={1}, noovf=False, invariants=inv)
+
+
 def s_op(i, x):
     return {"op": "s", "i": i, "x": x}
 
@@ -105,10 +117,18 @@ def plan_C01(tier, seed):
             # from the window alone, is again the expectation -- the step where cancellation has to have left nothing behind
             jobs.append(closed("%s_n%d" % (kind, n), kind, n, salpha=alpha, m=m, resets={1} if n <= 3 else (), conts=conts,
                                noovf=(n > 2)))
+        if kind == "BB":
+            # a huge multiplier: the bands are far from the mean, the mean itself is still the window mean within tau (a middle
+            # band recovered from the outer bands would be swamped)
+            for n in (2, 3):
+                jobs.append(closed("BB_hugem_n%d" % n, "BB", n, salpha=A3 | {5}, m=Fr(10 ** (6 + 3 * (n - 2)))))
         if tier == "thorough":
             # wider alphabet for short periods, and the other multipliers
             for n in (1, 2, 3):
                 jobs.append(closed("%s_n%d_a7" % (kind, n), kind, n, salpha={-3, -2, -1, 0, 1, 2, 3}, m=MULTS[(n + 1) % 5]))
+    for kind in WINDOWED:
+        for n in (2, 3):
+            jobs.append(pristine_job(kind, n, ("Refines", "Safe"), alt=n))
     # sampled large periods on seeded streams (TLC as oracle along a Python-chosen script)
     rng = random.Random(seed * 7919 + 1)
     pool = list(range(6, 65)) + [100, 127, 128, 129, 200, 255, 256, 257, 500, 512, 1000, 1023, 1024]
@@ -173,6 +193,8 @@ def plan_C02(tier, seed):
         jobs.append(closed("EMA_n%d" % n, "EMA", n, salpha=A5, maxdepth=(6 if q else 8), invariants=inv))
     jobs.append(closed("TR_s", "TR", 1, salpha=A5, maxdepth=5, invariants=inv))
     jobs.append(closed("TR_b", "TR", 1, balpha=bars, maxdepth=(4 if q else 5), invariants=inv))
+    for kind in ("EMA", "TR", "ATR", "MACD", "KC", "CE"):
+        jobs.append(pristine_job(kind, 3, ("Refines", "Safe"), alt=1))
     # user-defined bar types are not validated: close outside [low, high], low above high (the formulas are defined all the same)
     odd = [bar(3, 1, 5), bar(2, 2, 1), bar(1, 3, 2), bar(4, 2, 3)]
     inv_odd = ("Refines", "Safe")       # (NonNeg is a statement about bars with low <= high)
@@ -273,7 +295,7 @@ def plan_C03(tier, seed):
     hb = hlc_bars()
     for n in (1, 2, 3, 4, 5):
         for k, sd in enumerate([Fr(1, 10), Fr(1, 5), Fr(1), Fr(1, 100)] if not q else [Fr(1, 10), [Fr(1, 5), Fr(1), Fr(1, 100)][n % 3]]):
-            jobs.append(closed("RSI_n%d_s%d" % (n, k), "RSI", n, seed=sd, salpha=P3, maxdepth=(7 if q else 9), invariants=inv))
+            jobs.append(closed("RSI_n%d_s%d" % (n, k), "RSI", n, seed=sd, salpha=P3, maxdepth=(7 if q else 9), invariants=inv + ("RsiFlat",)))
         jobs.append(closed("FS_s_n%d" % n, "FAST_STOCH", n, salpha=P3, invariants=inv))
         jobs.append(closed("FS_b_n%d" % n, "FAST_STOCH", n, balpha=hb, maxdepth=(100 if n <= 3 else 6), invariants=inv))
         jobs.append(closed("ROC_n%d" % n, "ROC", n, salpha=P3, invariants=inv))
@@ -296,6 +318,13 @@ def plan_C03(tier, seed):
         jobs.append(closed("PPO_%d_%d_%d" % (f, s_, g), "PPO", f, n2=s_, n3=g, salpha=P3, maxdepth=(6 if q else 7), invariants=inv))
     obv_bars = [bar(c, c, c, v=v) for c in (1, 2, 3) for v in (0, 1, 2)]
     jobs.append(closed("OBV", "OBV", 1, balpha=obv_bars, maxdepth=(5 if q else 6), invariants=inv))
+    for kind in OSC:
+        jobs.append(pristine_job(kind, 3, ("Refines", "Safe"), alt=2))
+    # flat runs far longer than the bounded rationals can follow: lemma RsiFlat (model-checked above) is the oracle, "RSI does not move on
+    # an unchanged price", while both averages are certainly normal numbers
+    for n in (2, 3, 5, 14):
+        xs = stream_patterns(rng, 12, 1, 9, lively=True) + [7] * (25 * n + 25) + [9, 4, 4, 6] + [6] * (9 * n + 10) + [5, 8] + [8] * 60
+        jobs.append(scripted("RSI_flat_n%d" % n, {1: cfg("RSI", n)}, [new_op(1)] + [s_op(1, x) for x in xs], noovf=False, invariants=inv))
     # sampled periods up to 512 and long runs, on seeded scripted streams
     for kind in OSC:
         for rep in range(2 if q else 8):
@@ -719,6 +748,7 @@ def plan_C07(tier, seed):
         for e in ((1, 3) if q else (1, 2, 3, 5)):
             jobs.append(closed("SS_s_n%d_e%d" % (n, e), "SLOW_STOCH", n, n2=e, salpha=P3, maxdepth=(6 if q else 8), invariants=inv))
     for kind in RANGED:
+        jobs.append(pristine_job(kind, 3, inv, alt=1))
         for rep in range(3 if q else 10):
             n = rng.choice([1, 2, 3, 5, 8, 14, 30, 100])
             length = 6000 if q else 40000
@@ -792,11 +822,24 @@ def plan_C08(tier, seed):
                 L = (1500 if seg == 2 else rng.randint(1, 3 * n + 5)) if q else (5000 if seg == 2 else rng.randint(1, 200))
                 ops += flat_tail(kind, rng.choice([1, 3, 7, 9]), L, zero_volume=(kind in ("MFI", "OBV") and seg == 1))
             jobs.append(scripted("%s_flat%d_n%d" % (kind, rep, n), {1: a}, ops, noovf=False, invariants=inv))
+    # a sweep over flat LEVELS: "exactly the neutral value" has to hold at every price level, and whether a re-associated formula
+    # returns exactly 0 (or 50) depends on the digits of the level (100*x/x - 100 is non-zero at 0.17 and 10.29 but not at 12.3):
+    # some hundred seeded levels per kind, each held for n + 3 inputs, at the cent, 1e-4, 0.1 and 0.3 units among others
+    for kind in ("ROC", "FAST_STOCH", "SLOW_STOCH", "TR", "CCI", "MAD", "SD", "BB", "ER", "RSI", "ATR", "KC"):
+        for n in ((1, 3) if q else (1, 2, 3, 7)):
+            if kind == "TR" and n > 1:
+                continue
+            levels = rng.sample(range(1, 5000), 150 if q else 600)
+            ops = [new_op(1)]
+            for lv in levels:
+                ops += flat_tail(kind, lv, n + 3)
+            jobs.append(scripted("%s_levels_n%d" % (kind, n), {1: kcfg(kind, n, alt=n)}, ops, noovf=False, invariants=inv))
     return {
         "min_by_kind": {"kinds": ALL22, "relational": 300}, "jobs": jobs, "parallel": 12,
         "rule": "for each of the 22 kinds and periods 1..4 (1..5 thorough): from EVERY reachable state of the closed model (every cursor position and window content, "
                 "the empty prefix included) a flat stretch of n+3 inputs at three price levels (and a zero-volume stretch at moving prices for MFI/OBV) is explored; "
-                "plus seeded activity followed by flat stretches of 1 500-5 000 bars for periods 1..8, 14, 30; at every step at which the specification marks the "
+                "plus seeded activity followed by flat stretches of 1 500-5 000 bars for periods 1..8, 14, 30; plus 150 (600) seeded flat levels out of 1..4999 per kind "
+                "with an exact neutral value, each held for n+3 inputs (cent and 1e-4 units among others); at every step at which the specification marks the "
                 "window degenerate the real output must be finite, in range, and neutral where a neutral value is defined; units include 0.1, 0.3, 1e-4 (running-sum residue)",
         "assumptions": COMMON_ASSUME + ["'degenerate' is decided by the specification on the lattice (all prices in the window equal / zero money flow in the window)"],
     }
@@ -1357,7 +1400,7 @@ def plan_C18(tier, seed):
                 # with the bound from the specification's SizeBound table (checked for these kinds by the short TaSystem models below)
                 jobs.append(stream_job("%s_%s_n%d" % (kind, shape, n), "SMA" if kind not in BAR_ONLY else "CCI", c, segs, samples, prop="C18", reset_at=reset_at))
                 jobs[-1].sched["kind"] = kind
-    # short runs with serialization after every step, all kinds, periods 1..512: size constant after the first input and under the bound
+    # short runs with serialization after every step, all kinds, periods 1..512: size under the bound at every step
     for kind in ALL22:
         ids, ops = {}, []
         periods = [1, 2, 3, 7, 20, 64, 200, 512] if q else [1, 2, 3, 4, 5, 7, 9, 14, 20, 33, 64, 100, 128, 200, 256, 511, 512]
@@ -1379,7 +1422,9 @@ def plan_C18(tier, seed):
                     ops += to_ops(kind, i, xs[cyc % 7: cyc % 7 + 3]) + [{"op": "save", "i": i, "s": 1}, {"op": "reset", "i": i}]
                 ops += to_ops(kind, i, xs[:4]) + [{"op": "save", "i": i, "s": 1}]
             if k % 3 == 0:      # a non-finite value (for MFI / OBV also as volume), then more inputs: the state must not start to grow
-                ops += [{"op": "tok", "i": i, "x": ["PInf", "NaN", "FMax"][k % 3]}] + to_ops(kind, i, xs[:40] if len(xs) >= 40 else xs)
+                # (long enough for a leak of one f64 per call to cross the bound 256 + 64 n, whatever the size at the trigger)
+                tail = (xs * (2 + (9 * n + 40) // len(xs)))[:9 * n + 40] if n <= 200 else xs[:40]
+                ops += [{"op": "tok", "i": i, "x": ["PInf", "NaN", "FMax"][k % 3]}] + to_ops(kind, i, tail)
             ops.append({"op": "drop", "i": i})
         jobs.append(scripted("%s_sizes" % kind, ids, ops, slots={1}, noovf=False, invariants=inv))
     return {
@@ -1389,8 +1434,9 @@ def plan_C18(tier, seed):
         "rule": "per kind and stream shape (strictly falling, strictly rising, alternating, flat after activity, long falls with jumps, random) an intensional schedule "
                 "(Streams.tla, with ramp segments) of 10^5 (quick) / 10^6 (thorough) inputs for periods sampled from 1..512 is expanded into real calls; the net heap "
                 "bytes allocated inside next() (counting allocator, per thread) since construction must stay under SizeBound(kind, p) = 256 + 64 * sum of periods from the "
-                "specification, and the bincode length is sampled (every step up to 300, then every 997th) against the same bound and must stay constant after the first "
-                "input; plus scripted short runs for periods 1..512 with Save at the spec's checkpoints",
+                "specification, and the bincode length is sampled (every step up to 600, then every 97th) against the same bound (constancy of the size is not "
+                "demanded: the property states a bound); plus scripted short runs for periods 1..512 with Save at the spec's checkpoints, reset cycles, and "
+                "non-finite inputs followed by 9n + 40 further calls",
         "assumptions": ["heap use is measured by a counting global allocator inside the harness process, around each call of next()",
                         "for kinds with unbounded reference memory the stream model carries no value expectation (only the bound and the shape)"],
     }
